@@ -520,6 +520,11 @@ Qed.
 Definition window {A} (skip limit : Z) (l : list A) : list A :=
   (if 0 <? limit then firstn (Z.to_nat limit) else (fun x => x)) (drop skip l).
 
+Lemma window_skipn {A} skip limit (l : list A) :
+  window skip limit l =
+  (if 0 <? limit then firstn (Z.to_nat limit) else (fun x => x)) (skipn (Z.to_nat skip) l).
+Proof. unfold window. rewrite drop_skipn. reflexivity. Qed.
+
 Lemma drop_firstn_window {A} (l : list A) skip limit :
   0 <= skip -> 0 < limit ->
   drop skip (firstn (Z.to_nat (limit + skip)) l) = firstn (Z.to_nat limit) (drop skip l).
@@ -842,4 +847,31 @@ Proof.
   intros ds p x H. unfold distinct in H. apply dedupe_incl in H.
   apply (Permutation_in _ (Permutation_sym (stable_sort_perm compare _))) in H.
   apply collect_in in H. exact H.
+Qed.
+
+(* ================================================================== *)
+(* 6. The property in one statement                                    *)
+
+(* A find with a sort specification: there is ONE full ordering of the
+   matching documents — a permutation of the matches, never decreasing under
+   the specification, ties in insertion order — and every skip/limit pair
+   returns exactly the corresponding window of it. *)
+Theorem find_sorted_window (matchf : doc -> doc -> res bool) : forall l q s cols,
+  filter_total matchf l q -> columns s = Ok cols ->
+  exists full,
+    Permutation (filter (matches matchf q) l) full /\
+    StronglySorted (fun a b : sdoc => order (snd a) (snd b) cols <> Gt) full /\
+    (forall x : sdoc,
+               filter (fun y : sdoc => match order (snd x) (snd y) cols with Eq => true | _ => false end) full =
+               filter (fun y : sdoc => match order (snd x) (snd y) cols with Eq => true | _ => false end)
+                      (filter (matches matchf q) l)) /\
+    forall skip limit, 0 <= skip ->
+      find_list matchf l q (Some s) skip limit = Ok (window skip limit full).
+Proof.
+  intros l q s cols FT Hc.
+  exists (stable_sort (sdoc_order cols) (filter (matches matchf q) l)).
+  split; [apply stable_sort_perm|].
+  split; [apply (stable_sort_sorted _ (sdoc_order_total cols))|].
+  split; [intro x; apply (stable_sort_stable _ (sdoc_order_total cols))|].
+  intros skip limit Hs. apply find_spec; assumption.
 Qed.
